@@ -9,6 +9,8 @@ CHECKS = {
          "as C01", "bounded symbolic execution (CBMC) of channel.c: inductive step with SAT verdict"),
  "C13": ("model_checking", "Scripted call shapes over the real props/storage.c with all strings symbolic (NULL, empty, 1..3 bytes, terminated or not) and 0..2 dimensions per side: after copy every field is compared, pointer independence asserted, the source compared with a snapshot, the source mutated and the copy re-checked, a second copy in either direction; CBMC heap instrumentation decides double free/use after free/OOB and the leak check decides 'each allocation released exactly once'.", "§4 C13",
          "CBMC + cadical; realloc without content copy; typed memset/memcpy rewrite (lib/typed_mem.h); malloc never fails", "bounded symbolic execution (CBMC) of props/storage.c with heap and leak instrumentation"),
+ "C11": ("model_checking", "All sequences of up to 8 (thorough 14) HAL calls after open over a mock driver whose every return code is symbolic, device object freed by the driver's close: protocol monitor (stop/append/get_frame only while the driver is running, one close per successful driver open incl. open's error paths, nothing after close), HAL state = function of the driver's last response, CBMC deallocated-object checks for accesses after close.", "§4 C11",
+         "CBMC + cadical; device manager replaced by a stub returning the mock driver; function pointers non-NULL", "bounded symbolic execution (CBMC) of hal/camera.c, storage.c, driver.c over a symbolic call sequence"),
 }
 NA = {}
 def main():
